@@ -7,8 +7,8 @@ Line protocol of the reader model (same cases as harness/hx_reader.cpp, mode R):
 ops (cycled until a `g` reports end of input or an exception escapes):
   g getNextChar   p peekNextChar   s skippedSpace   < skippedChar('<')   x skippedChar('x')
   n getNextCharIfNot('<')   k skippedString("<!--")   K peekString("]]>")   e skippedString("&#x")
-Observation: ctor result, number of ops, FNV-64 of the token stream (each token carries the
-result, line, column and source offset after the op), how it ended, final position, and the first /
+Observation: ctor result, number of ops, a 64-bit FNV-style hash of the observations (per op: op code,
+result, line, column and source offset after the op, mixed as five words; text form only with v=1), how it ended, final position, and the first /
 last delivered characters.
 -/
 import XV.Driver.Util
@@ -118,47 +118,64 @@ def lt : List Nat := [0x3C, 0x21, 0x2D, 0x2D]      -- "<!--"
 def cdEnd : List Nat := [0x5D, 0x5D, 0x3E]         -- "]]>"
 def charRef : List Nat := [0x26, 0x23, 0x78]       -- "&#x"
 
-def pushTok (st : Run) (verbose : Bool) (tok : String) (r : Reader) : Run :=
-  let full := if r.pe then s!"{tok}@{r.line}:{r.col}:-," else s!"{tok}@{r.line}:{r.col}:{r.srcOfs},"
-  { st with r := r, h := fnvStr st.h full, nops := st.nops + 1,
-            trace := if verbose then st.trace.push full else st.trace }
+/-- FNV-style mixing of one 64-bit word (same on the harness side) -/
+@[inline] def mix (h x : UInt64) : UInt64 := (h ^^^ x) * 1099511628211
+
+/-- value recorded for "no character" (end of input / refused) -/
+def noChar : Nat := 0xFFFFFFFF
+
+/-- One observation: operation code, its result, and line / column / source offset after it (the offset is left
+out for PE readers).  Hashed as five 64-bit words; the text form is only built for `v=1` replays. -/
+def pushTok (st : Run) (verbose : Bool) (opc : Char) (val : Nat) (r : Reader) : Run :=
+  let ofs : UInt64 := if r.pe then 0xFFFFFFFFFFFFFFFF else r.srcOfs.toUInt64
+  let h := mix (mix (mix (mix (mix st.h opc.toNat.toUInt64) val.toUInt64) r.line.toUInt64) r.col.toUInt64) ofs
+  { st with r := r, h := h, nops := st.nops + 1,
+            trace := if verbose then
+                st.trace.push (let v := if val == noChar then "E" else hexStr val
+                               if r.pe then s!"{opc}{v}@{r.line}:{r.col}:-," else s!"{opc}{v}@{r.line}:{r.col}:{r.srcOfs},")
+              else st.trace }
 
 def noteChar (st : Run) (c : Nat) : Run :=
   { st with nchars := st.nchars + 1,
             head := if st.head.size < 12 then st.head.push c else st.head,
-            tail := if st.tail.size < 8 then st.tail.push c else (st.tail.extract 1 8).push c }
+            tail := if st.tail.size < 8 then st.tail.push c else st.tail.set! (st.nchars % 8) c }   -- ring of the last 8
+
+/-- the last ≤ 8 delivered characters, oldest first -/
+def tailList (st : Run) : List Nat :=
+  if st.nchars ≤ 8 then st.tail.toList
+  else let k := st.nchars % 8; (st.tail.extract k 8).toList ++ (st.tail.extract 0 k).toList
 
 def finish (st : Run) (e : String) : Run := { st with ending := some e }
 
 /-- one op; `none` ending = continue -/
 def stepOp (st : Run) (verbose : Bool) (op : Char) : Run :=
-  let bres (tag : String) (res : BRes) : Run :=
+  let bres (tag : Char) (res : BRes) : Run :=
     match res with
-    | .ok b r => pushTok st verbose (tag ++ (if b then "1" else "0")) r
+    | .ok b r => pushTok st verbose tag (if b then 1 else 0) r
     | .exc e r => finish { st with r := r } ("exc " ++ e.name)
     | .fuelOut => finish st "fuelOut"
   match op with
   | 'g' => match getNextChar st.r with
-      | .char c r => noteChar (pushTok st verbose ("g" ++ hexStr c) r) c
-      | .eof r => finish (pushTok st verbose "gE" r) "eof"
+      | .char c r => noteChar (pushTok st verbose 'g' c r) c
+      | .eof r => finish (pushTok st verbose 'g' noChar r) "eof"
       | .exc e r => finish { st with r := r } ("exc " ++ e.name)
       | .fuelOut => finish st "fuelOut"
   | 'p' => match peekNextChar st.r with
-      | .char c r => pushTok st verbose ("p" ++ hexStr c) r
-      | .eof r => pushTok st verbose "pE" r
+      | .char c r => pushTok st verbose 'p' c r
+      | .eof r => pushTok st verbose 'p' noChar r
       | .exc e r => finish { st with r := r } ("exc " ++ e.name)
       | .fuelOut => finish st "fuelOut"
   | 'n' => match getNextCharIfNot st.r 0x3C with
-      | .char c r => noteChar (pushTok st verbose ("n" ++ hexStr c) r) c
-      | .eof r => pushTok st verbose "nF" r
+      | .char c r => noteChar (pushTok st verbose 'n' c r) c
+      | .eof r => pushTok st verbose 'n' noChar r
       | .exc e r => finish { st with r := r } ("exc " ++ e.name)
       | .fuelOut => finish st "fuelOut"
-  | 's' => bres "s" (skippedSpace st.r)
-  | '<' => bres "<" (skippedChar st.r 0x3C)
-  | 'x' => bres "x" (skippedChar st.r 0x78)
-  | 'k' => bres "k" (skippedString st.r lt)
-  | 'K' => bres "K" (peekString st.r cdEnd)
-  | 'e' => bres "e" (skippedString st.r charRef)
+  | 's' => bres 's' (skippedSpace st.r)
+  | '<' => bres '<' (skippedChar st.r 0x3C)
+  | 'x' => bres 'x' (skippedChar st.r 0x78)
+  | 'k' => bres 'k' (skippedString st.r lt)
+  | 'K' => bres 'K' (peekString st.r cdEnd)
+  | 'e' => bres 'e' (skippedString st.r charRef)
   | _ => finish st "bad-op"
 
 partial def runOps (st : Run) (verbose : Bool) (ops : Array Char) (i cap : Nat)
@@ -170,14 +187,14 @@ partial def runOps (st : Run) (verbose : Bool) (ops : Array Char) (i cap : Nat)
       | some (k, nm) =>
         if st.nops == k && k > 0 then
           let (b, r) := setEncoding st.r nm
-          { st with r := r, h := fnvStr st.h (if b then "S1," else "S0,") }
+          { st with r := r, h := mix (mix st.h 0x53) (if b then 1 else 0) }
         else st
       | none => st
     runOps (stepOp st verbose (ops.getD (i % ops.size) 'g')) verbose ops (i + 1) cap setAt
 
 def showRun (ctor : String) (st : Run) (verbose : Bool) : String :=
   let base := s!"ctor={ctor} n={st.nops} h={hexStr st.h.toNat} end={(st.ending.getD "?").replace " " "_"} " ++
-    s!"line={st.r.line} col={st.r.col} ofs={if !st.r.pe && st.ending == some "eof" then toString st.r.srcOfs else "-"} chars={st.nchars} head={hexList st.head.toList} tail={hexList st.tail.toList}"
+    s!"line={st.r.line} col={st.r.col} ofs={if !st.r.pe && st.ending == some "eof" then toString st.r.srcOfs else "-"} chars={st.nchars} head={hexList st.head.toList} tail={hexList (tailList st)}"
   if verbose then base ++ " trace=" ++ String.join st.trace.toList else base
 
 def handle (line : String) : String :=
@@ -209,12 +226,14 @@ def handle (line : String) : String :=
           | some (.unmodelled f) => s!"ctor=unmodelled_{repr f}"
           | some (.ok r) =>
             let (r, pre) := match setAt with
-              | some (0, nm) => let (b, r) := setEncoding r nm; (r, if b then "S1," else "S0,")
-              | _ => (r, "")
+              | some (0, nm) => let (b, r) := setEncoding r nm; (r, mix (mix fnvInit 0x53) (if b then 1 else 0))
+              | _ => (r, fnvInit)
             let opsA := ops.toList.toArray
             if opsA.isEmpty || !(opsA.contains 'g') then "bad-op" else
-            let st : Run := { r := r, h := fnvStr fnvInit pre }
-            let st := runOps st verbose opsA 0 (3 * (bs.length + 16)) setAt
+            let st : Run := { r := r, h := pre }
+            -- every cycle of the script holds a `g`, which consumes a character or ends the run: this bound is never
+            -- reached by a terminating reader (`end=cap` = a reader that does not advance)
+            let st := runOps st verbose opsA 0 (opsA.size * (bs.length + 16)) setAt
             showRun "ok" st verbose
     | _, _, _, _, _, _, _, _ => "bad-op"
   | _ => "bad-op"
